@@ -918,7 +918,7 @@ func callsCases(prop, tier string, seed int64) []callsCase {
 	if prop == "c12" {
 		kinds = append(kinds, "ws", "unix")
 	}
-	if th || prop == "c13" { // the C13 cases are few and short: every transport in both tiers
+	if th || prop == "c13" || prop == "c11" { // the C11 / C13 cases are few and short: every transport in both tiers
 		kinds = rpcenv.Kinds
 	}
 	framed := func(k string) bool { return k == "tcp" || k == "unix" || k == "udp" }
